@@ -332,6 +332,46 @@ def random_cfg(rng, tier):
     return {"lock": lock, "susp": susp, "items": mk_items(nitems), "scripts": scripts}
 
 
+def abandoned_first_step_probe(rep):
+    """A child's first step is created and abandoned before it ever runs (a task cancelled before its first step leaves
+    exactly this behind), for every subset of the children; the others may have been advanced.  Closing the tee then
+    still closes the source exactly once and deregisters every child."""
+    from gencalc import drive
+    fails = 0
+    for n in (1, 2, 3):
+        for mask in range(1, 2 ** n):
+            for advanced_others in (False, True):
+                src = Source(mk_items(4), 0)
+                t = a.tee(src, n)
+                kids = list(t)
+                why = None
+                try:
+                    for i in range(n):
+                        if mask >> i & 1:
+                            aw = kids[i].__anext__()       # never awaited
+                            close = getattr(aw, "close", None)
+                            if close is not None:
+                                close()
+                        elif advanced_others:
+                            async def _adv(ch):
+                                return await ch.__anext__()
+                            drive(_adv(kids[i]))
+                    drive(t.aclose())
+                    drive(t.aclose())
+                except BaseException as e:  # noqa
+                    why = "failed with %r" % (e,)
+                bufs = getattr(t, "_buffers", [])
+                rep.count(("tee-abandoned-first-step", n, mask, advanced_others), True)
+                if why is None and (src.closed != 1 or len(bufs) != 0):
+                    why = "after tee.aclose(): source closed %d times, %d buffers still registered" % (src.closed, len(bufs))
+                if why:
+                    fails += 1
+                    rep.violation("tee:abandoned-first-step", {"children": n, "abandoned_mask": mask, "others_advanced": advanced_others,
+                                                               "why": "children whose first __anext__() awaitable was created but never run: " + why})
+                    return fails
+    return fails
+
+
 def run(tier, seed):
     rep = Report("C09", tier, seed)
     proofs_ok = proof_stage(rep, "C09")
@@ -482,6 +522,7 @@ def run(tier, seed):
         if why:
             fails += 1
             rep.violation("tee:handle", {"children": 3, "busy_child": busy, "why": why})
+    fails += abandoned_first_step_probe(rep)
     # items are opaque to a tee: objects that claim to equal everything (or whose comparison / truth test raises) travel
     # through it like any other item, for every interleaving of the children
     class EqualsAll:
